@@ -1214,12 +1214,24 @@ func runC17(r *core.Run) (bool, string) {
 		r.Count("modules", 1)
 		r.Count("scenarios", int64(len(scs)))
 	}
+	// ---- families on modules of their own: build constraints; sibling output directories that are string prefixes
+	t0 := time.Now()
+	c.runConstraints(r, rng.Fork("constraints"))
+	r.Set("seconds_build_constraints", int(time.Since(t0).Seconds()))
+	t0 = time.Now()
+	defer func() { r.Set("seconds_prefix_siblings", int(time.Since(t0).Seconds())) }()
+	if !c.runPrefixSiblings(r, rng.Fork("prefix-siblings")) {
+		return false, "cannot write the prefix-sibling module"
+	}
 	n := r.Evals()
 	if n < 30 {
 		return false, fmt.Sprintf("only %d invocations judged (floor 30)", n)
 	}
 	if r.GetCount("identical_files_checked") < 5 || r.GetCount("partial_files_judged") < 3 || r.GetCount("build_tag_packages_judged") < 3 {
 		return false, "too few write-if-changed / partial-output / build-tag observations"
+	}
+	if r.GetCount("build_constraint_files_selected_and_translated") < 10 || r.GetCount("build_constraint_pairs_judged") < 5 || r.GetCount("prefix_sibling_scenarios") < 5 {
+		return false, "too few build-constraint / prefix-sibling observations"
 	}
 	return true, ""
 }
